@@ -84,6 +84,10 @@ def check(P, R):
     R.rule('C07.d', 'text and headers decoded from exactly their section', floor=2)
     R.rule('C07.e', 'scanner state does not leak between parts', floor=6)
 
+    # the parts are cut out of the whole body: the reader hands on every byte whatever the stream's read sizes (premise shared with C04)
+    from . import c04
+    c04.check_reader_premise(P, R, 'C07.c', 'every submitted field arrives: a reader that loses count on a short read truncates the body, so trailing parts disappear')
+
     # ---- a
     rd_ = P.func(f'{MP}:BytesIOProxy.read')
     g, rd = rd_.cfg, rd_.rd
